@@ -11,51 +11,68 @@ MANIFEST_TEXT = ("Lean 4 theorems (all index lists incl. repeated indices, all p
                  "count; the size exchange round-trips; #messages sent = #receives posted (no hang; false for the unrepaired "
                  "code, witness proved); for the free interleaving of the per-neighbour small-step machines every "
                  "schedule is finite, every maximal one ends in the final state and all of them produce the same scatter "
-                 "calls; and for the rank-level systems (all ranks with program position and the loop counters "
+                 "calls; for the rank-level systems (all ranks with program position and the loop counters "
                  "size_to_send/size_to_recv/no_to_send/no_to_recv resp. the three counters and the final MPI_Waitall of the "
                  "fixed-size path, ranks moving at their own pace, size and data messages on one FIFO) every schedule is finite, "
                  "the counters always equal the number of open requests, no message is matched with a receive of the other "
-                 "phase, and every maximal execution ends with every rank returned and every link delivered. The model is run "
-                 "against the real class under mpirun -np 1..4 (thorough: ..8) on random symmetric interface maps with a "
-                 "recording data handle, six item types (MPITraits of long, POD, std::pair with interior padding, std::pair with tail padding, nested pair, FieldVector), all six "
-                 "ways to construct the object, several calls per object mixing fixed- and variable-size handles, "
-                 "PMPI-permuted MPI_Testsome completion orders, a per-case alarm that turns a hang into a reported crash, an "
-                 "independent delivery oracle and a send/receive balance oracle (PMPI counts of the started point-to-point "
-                 "operations).")
+                 "phase, every maximal execution ends with every rank returned and every link delivered, and a rank that has "
+                 "returned is quiet on all its links for the rest of the call (nothing of it in a FIFO, no request open, no "
+                 "receive posted by its peer: a later call on the same communicator cannot meet this one); and for object "
+                 "histories (any program of the four constructors with either compile-time default, copy construction, "
+                 "assignment incl. self-assignment, destruction, use, on any of the user's communicators) the buffer size, the "
+                 "interface map and the process group of every object are those of value semantics, no MPI call ever gets a "
+                 "dead communicator, every object owns a live private duplicate and none is leaked, so the delivery theorem "
+                 "holds for the object's own maxBufferSize. The model is run against the real class under mpirun -np 1..4 "
+                 "(thorough: ..8) on random symmetric interface maps with a recording data handle, 23 item types (every "
+                 "specialisation of mpitraits.hh: all primitive types directly or as FieldVector components, std::pair with "
+                 "interior/tail padding and nested, FieldVector, bigunsignedint<k> with and without a partially filled top "
+                 "digit, the generic byte-wise fallback), random object histories over up to four objects (both communicator "
+                 "orders, buffers smaller/equal/bigger than B, decoy maps, calls on several objects, probes of bystanders), a "
+                 "second build of the class with DUNE_PARALLEL_MAX_COMMUNICATION_BUFFER_SIZE defined, several calls mixing "
+                 "fixed- and variable-size handles, PMPI-permuted MPI_Testsome completion orders, a per-case alarm that turns "
+                 "a hang into a reported crash, an independent delivery oracle and a send/receive balance oracle (PMPI "
+                 "counts of the started point-to-point operations).")
 MANIFEST_NOTE = ("Trusted: Lean kernel, the hand-written model's fidelity (differential runs only: scatter calls per source "
-                 "rank, in order, with counts and items), OpenMPI (reliable, pairwise FIFO, synchronous-send semantics), "
-                 "harness/mpi_c06.cc + pmpi_sched.cc, g++/ASan/UBSan. In the rank-level systems every rank is taken to have "
+                 "rank, in order, with counts and items; for object histories: which calls return and deliver, i.e. the "
+                 "effective buffer size, map and process group), OpenMPI (reliable, pairwise FIFO, synchronous-send semantics), "
+                 "harness/mpi_c06*.cc|hh + pmpi_sched.cc, g++/ASan/UBSan. In the rank-level systems every rank is taken to have "
                  "entered the call and run its first setupRequests (a rank entering later is a pure delay); consecutive calls "
-                 "on one communicator are independent because a finished call leaves nothing in flight (proved) - the "
-                 "composition itself is argued; fairness of the MPI_Testsome busy-wait is assumed. Fixed-size handles must "
-                 "report one size >= 1 (the code asserts it). scatter(index, 0) calls for zero-size indices are not part of "
-                 "the compared behaviour; a message longer than the configured buffer is only counted. Not observable: "
-                 "completion of the scalar size sends before return (the final MPI_Waitall) - removing it changes nothing "
-                 "the harness can see. Needs fixes/C06_zero_sizes_hang.patch (applied as ebd31a1): the unrepaired code hangs "
-                 "when all sizes towards a neighbour are 0.")
-TECHNIQUE = "Lean 4 proof over a tracker/buffer/round model and rank-level transition systems + MPI differential correspondence with schedule steering, hang alarm, delivery and balance oracles"
+                 "on one communicator are independent because a rank that returned is quiet on all its links (proved) - the "
+                 "composed multi-call system itself is not modelled; fairness of the MPI_Testsome busy-wait is assumed. "
+                 "Fixed-size handles must report one size >= 1 (the code asserts it). scatter(index, 0) calls for zero-size "
+                 "indices are not part of the compared behaviour; a message longer than the configured buffer is only "
+                 "counted (an object that works with a bigger buffer than configured still delivers everything). Not "
+                 "observable: completion of the scalar size sends before return (the final MPI_Waitall). The MPI datatypes "
+                 "themselves are modelled by C07; here they only travel. Needs fixes/C06_zero_sizes_hang.patch (applied as "
+                 "ebd31a1): the unrepaired code hangs when all sizes towards a neighbour are 0.")
+TECHNIQUE = "Lean 4 proof over a tracker/buffer/round model, rank-level transition systems and an object-history model + MPI differential correspondence with schedule steering, hang alarm, delivery and balance oracles"
 TRANSLATORS = []
 HARNESS = dict(
     sources=["mpi_c06.cc", "mpi_c06_cfg.cc", "pmpi_sched.cc"],
     mpi=True,
     repo_sources=["dune/common/exceptions.cc", "dune/common/stdstreams.cc"],
-    flags=["-O0"],  # six item types x the whole communicator template: ~14 s instead of ~60 s; the sanitizers stay on
+    flags=["-O0"],  # 23 item types x the whole communicator template (+ 3 in the second build): ~25 s; the sanitizers stay on
 )
 CRASH_IS_VIOLATION = True  # the property promises that forward()/backward() return on every process
 RULE = ("cases: rank 0 draws a symmetric interface map over P processes (self interfaces, empty interfaces, one-directional "
         "links, repeated indices), a buffer size B in {1,2,3,4,5,7,8,16,32768}, per-rank fixed sizes f in {1,2,(B+1)/2,B-1,B,random} "
         "(equal or different between ranks) and/or per-index sizes from {0,1,2,B-1,B,random<=B} (streams: random, all zero, "
-        "some ranks all zero, single non-zero, all B, zero-heavy), one of six item types (long, POD, pair<char,double>, pair<double,char>, pair<int,pair<short,double>>, FieldVector<double,3>), one of six constructors, and a "
-        "sequence of 1-4 forward/backward calls on the one object, with handles of the case's mode or of the other mode; "
+        "some ranks all zero, single non-zero, all B, zero-heavy), one of 23 item types, how the object(s) come about (one "
+        "of the six round-two constructor letters, or a random history of 2-9 statements over up to four objects: "
+        "construct with buffer in {B,B+3,1,B-1,(B+1)/2,2B,B+1,random,default} over the case's map or a decoy map on "
+        "MPI_COMM_WORLD or on a communicator with reversed rank order, copy-construct, assign, self-assign, destroy, probe, "
+        "call; in 1 of 9 cases with the class built with DUNE_PARALLEL_MAX_COMMUNICATION_BUFFER_SIZE=5), and a sequence of "
+        "1-4 forward/backward calls on these objects, with handles of the case's mode or of the other mode; "
         "distinct = distinct op lines; non-trivial = at least one rank has a non-empty interface list")
 ASSUMPTIONS = [
-    "the Lean model lean/DuneVerif/Model/C06.lean is hand-written; its fidelity to variablesizecommunicator.hh rests on this differential run (scatter calls per source rank, in order, with counts and items)",
-    "MPI is trusted: reliable, pairwise FIFO per (source, tag, communicator); MPI_Issend completes once the matching receive has started; MPI_Testsome eventually reports a completed request",
-    "all processes construct the communicator with the same buffer size and symmetric interface maps whose k-th send and k-th receive entries match (the documented precondition), and call forward/backward collectively with handles that agree on fixedSize()",
+    "the Lean models lean/DuneVerif/Model/C06*.lean are hand-written; their fidelity to variablesizecommunicator.hh rests on this differential run (scatter calls per source rank, in order, with counts and items; effective buffer size, map and process group of every object a call is made on)",
+    "MPI is trusted: reliable, pairwise FIFO per (source, tag, communicator); MPI_Issend completes once the matching receive has started; MPI_Testsome eventually reports a completed request; MPI_Comm_dup gives an independent communicator with the same group",
+    "all processes run the same object history (same buffer sizes, symmetric interface maps whose k-th send and k-th receive entries match - the documented precondition) and call forward/backward collectively with handles that agree on fixedSize()",
     "a data handle writes exactly size(i) items in gather(i); a fixed-size handle has one size >= 1 for all indices (it may differ between ranks)",
     "completion orders are sampled (PMPI steering of MPI_Testsome); the theorems all_schedules_terminate and rank_level_* cover all of them at the protocol level",
+    "the interface maps and Interface objects outlive every communicator object pointing to them (the class stores a pointer)",
 ]
-TRUSTED = ["OpenMPI, mpicxx/libstdc++, ASan/UBSan", "harness/mpi_c06.cc (generator, recording handle, oracles, PMPI counters) + harness/pmpi_sched.cc",
+TRUSTED = ["OpenMPI, mpicxx/libstdc++, ASan/UBSan", "harness/mpi_c06.cc, mpi_c06_cfg.cc, mpi_c06_api.hh (generator, recording handle, item codecs, value-semantics shadow of the object histories, oracles, PMPI counters) + harness/pmpi_sched.cc",
            "Driver/C06.lean parsing/printing"]
 
 
